@@ -361,7 +361,7 @@ def option_files(spec):
             json.dumps(sy, indent=1, sort_keys=True) if sy is not None else None)
 
 
-def option_string(spec, retry_path=None, yaml_path=None):
+def option_string(spec, retry_path=None, yaml_path=None, samples_path=None):
     o = dict(spec.get("options") or {})
     parts = []
     tr = o.pop("transport", None)
@@ -380,4 +380,6 @@ def option_string(spec, retry_path=None, yaml_path=None):
         parts.append("retry-config=" + retry_path)
     if yaml_path:
         parts.append("service-yaml=" + yaml_path)
+    if samples_path:
+        parts.append("samples=" + samples_path)
     return ",".join(parts)
